@@ -1,443 +1,12 @@
 import LunarVerif.Spec.C13
 import LunarVerif.Proofs.UrlTree
-/-! Helper lemmas for C13: the invariant of `BuildEndpointPolicyTree` outside the cross-match class. -/
+/-! Helper lemmas for C13 (repaired `BuildEndpointPolicyTree`, fixes/F13a.patch + fixes/F13e.patch): the
+invariant of the build — it needs NO hypothesis on the declarations any more — and what it gives for the
+selection. -/
 namespace LunarVerif.C13
 open LunarVerif.UrlTree LunarVerif.UrlMatch
 
-/-! ### policy maps -/
-
-theorem PMap.mem_of_find? {mp : PMap} {m : String} {p : Policy} (h : PMap.find? mp m = some p) :
-    (m, p) ∈ mp := by
-  induction mp with
-  | nil => simp [PMap.find?] at h
-  | cons kp rest ih =>
-    obtain ⟨k, q⟩ := kp
-    unfold PMap.find? at h
-    by_cases hk : k = m
-    · simp [hk] at h; subst h; subst hk; simp
-    · simp [hk] at h; exact List.mem_cons_of_mem _ (ih h)
-
-theorem PMap.mem_set {mp : PMap} {k m : String} {p pol : Policy} (h : (m, pol) ∈ PMap.set mp k p) :
-    (m = k ∧ pol = p) ∨ (m, pol) ∈ mp := by
-  induction mp with
-  | nil => simp [PMap.set] at h; exact .inl h
-  | cons kq rest ih =>
-    obtain ⟨k', q⟩ := kq
-    unfold PMap.set at h
-    by_cases hk : k' = k
-    · simp [hk] at h
-      rcases h with h | h
-      · exact .inl h
-      · exact .inr (List.mem_cons_of_mem _ h)
-    · simp [hk] at h
-      rcases h with h | h
-      · exact .inr (by simp [h])
-      · rcases ih h with h | h
-        · exact .inl h
-        · exact .inr (List.mem_cons_of_mem _ h)
-
-/-! ### the build invariant -/
-
-/-- What holds of the tree and the store after the endpoints `done` were added, provided no declared URL
-    was matched by an earlier declared different pattern. -/
-structure Inv (pt : PTree) (done : List Endpoint) : Prop where
-  wl : WildLast pt.tree
-  names : NamesOK pt.tree
-  idx : ∀ q i, (q, some i) ∈ pt.tree → i < pt.store.length
-  src : ∀ q i, (q, some i) ∈ pt.tree → ∀ m pol, (m, pol) ∈ pt.store.getD i [] →
-    pol.src.parts = q ∧ pol.src ∈ done ∧ pol.src.method = m
-  inj : ∀ q q' i, (q, some i) ∈ pt.tree → (q', some i) ∈ pt.tree → q = q'
-  dom : ∀ q ov, (q, ov) ∈ pt.tree → ∃ e ∈ done, q = trunc e.parts ∧
-    (ov = none ↔ (trunc e.parts).length < e.parts.length)
-  cov : ∀ e ∈ done, wildLast e.parts = true → ∃ i, (e.parts, some i) ∈ pt.tree
-
-theorem inv_empty : Inv .empty [] := by
-  constructor <;> simp [PTree.empty, WildLast, NamesOK]
-
-/-- No earlier declared different pattern (laxly) matches the URL of `e`. -/
-def Fresh (done : List Endpoint) (e : Endpoint) : Prop :=
-  ∀ e' ∈ done, e'.parts ≠ e.parts → matchesLax e'.parts e.parts = false
-
-theorem getD_set_eq {α : Type} (l : List α) (i : Nat) (a d : α) (h : i < l.length) :
-    (l.set i a).getD i d = a := by
-  simp [List.getD, h]
-
-theorem getD_set_ne {α : Type} (l : List α) (i j : Nat) (a d : α) (h : i ≠ j) :
-    (l.set i a).getD j d = l.getD j d := by
-  simp [List.getD, List.getElem?_set_ne h]
-
-theorem mem_append_new {t : Tree Nat} {ps : List Part} {i : Nat} {q' : List Part} {j : Nat}
-    (h : (q', some j) ∈ t ++ [(trunc ps, if (trunc ps).length < ps.length then none else some i)]) :
-    (q', some j) ∈ t ∨ (q' = ps ∧ j = i) := by
-  rcases List.mem_append.mp h with hm' | hm'
-  · exact .inl hm'
-  · simp only [List.mem_singleton, Prod.mk.injEq] at hm'
-    obtain ⟨h1, h2⟩ := hm'
-    by_cases hlen : (trunc ps).length < ps.length
-    · rw [if_pos hlen] at h2; simp at h2
-    · rw [if_neg hlen] at h2
-      simp only [Option.some.injEq] at h2
-      exact .inr ⟨by rw [h1]; exact trunc_eq_of_length _ hlen, h2⟩
-
-theorem dom_append_new {t : Tree Nat} {done : List Endpoint} {e : Endpoint} {i : Nat}
-    (hdom : ∀ q ov, (q, ov) ∈ t → ∃ e ∈ done, q = trunc e.parts ∧
-      (ov = none ↔ (trunc e.parts).length < e.parts.length)) :
-    ∀ q ov, (q, ov) ∈ t ++ [(trunc e.parts, if (trunc e.parts).length < e.parts.length then none else some i)] →
-      ∃ x ∈ done ++ [e], q = trunc x.parts ∧ (ov = none ↔ (trunc x.parts).length < x.parts.length) := by
-  intro q' ov hmem
-  rcases List.mem_append.mp hmem with hm' | hm'
-  · obtain ⟨x, hx, h1, h2⟩ := hdom q' ov hm'
-    exact ⟨x, by simp [hx], h1, h2⟩
-  · simp only [List.mem_singleton, Prod.mk.injEq] at hm'
-    obtain ⟨h1, h2⟩ := hm'
-    refine ⟨e, by simp, h1, ?_⟩
-    rw [h2]
-    by_cases hlt : (trunc e.parts).length < e.parts.length <;> simp [hlt]
-
-theorem cov_append_new {t : Tree Nat} {done : List Endpoint} {e : Endpoint} {i : Nat}
-    (hcov : ∀ e ∈ done, wildLast e.parts = true → ∃ i, (e.parts, some i) ∈ t) :
-    ∀ x ∈ done ++ [e], wildLast x.parts = true → ∃ j, (x.parts, some j) ∈
-      t ++ [(trunc e.parts, if (trunc e.parts).length < e.parts.length then none else some i)] := by
-  intro x hx hwl
-  rcases List.mem_append.mp hx with hx | hx
-  · obtain ⟨j, hj⟩ := hcov x hx hwl
-    exact ⟨j, List.mem_append_left _ hj⟩
-  · simp only [List.mem_singleton] at hx
-    subst hx
-    refine ⟨i, List.mem_append_right _ ?_⟩
-    have := trunc_of_wildLast _ hwl
-    simp [this]
-
-theorem addEndpoint_inv {pt pt' : PTree} {done : List Endpoint} {e : Endpoint}
-    (hinv : Inv pt done) (hfresh : Fresh done e) (h : addEndpoint pt e = .ok pt') :
-    Inv pt' (done ++ [e]) := by
-  unfold addEndpoint at h
-  split at h
-  · simp at h
-  · cases hl : (lookupParts pt.tree e.parts).value with
-    | some i =>
-      rw [hl] at h
-      simp only at h
-      split at h
-      · simp at h
-      · rename_i t' hins
-        simp at h
-        subst h
-        obtain ⟨hval, _, _, _⟩ := insertParts_ok hins
-        have hne := validateParts_none hval
-        -- the map that was found belongs to the very pattern being declared
-        obtain ⟨q, hq, hm⟩ := lookupParts_sound_lax pt.tree e.parts i hinv.wl hne hl
-        obtain ⟨e', he', hqe, hqs⟩ := hinv.dom q (some i) hq
-        have hqe' : q = e'.parts := by
-          rw [hqe]
-          exact trunc_eq_of_length _ (fun hlt => by have := hqs.mpr hlt; simp at this)
-        have hqp : q = e.parts := by
-          by_cases hd : e'.parts = e.parts
-          · rw [hqe', hd]
-          · have := hfresh e' he' hd
-            rw [← hqe', hm] at this
-            simp at this
-        have hi : i < pt.store.length := hinv.idx q i hq
-        have hnames := insertParts_namesOK hinv.names hins
-        rw [insertParts_declared hins] at hnames ⊢
-        have hnew := fun q' j => @mem_append_new pt.tree e.parts i q' j
-        refine ⟨?_, hnames, ?_, ?_, ?_, ?_, ?_⟩
-        · intro x hx
-          rcases List.mem_append.mp hx with hx | hx
-          · exact hinv.wl x hx
-          · simp at hx; subst hx; exact wildLast_trunc _
-        · intro q' j hmem
-          simp only [setStore, List.length_set]
-          rcases hnew q' j hmem with hold | ⟨_, rfl⟩
-          · exact hinv.idx q' j hold
-          · exact hi
-        · intro q' j hmem m pol hb
-          simp only [setStore] at hb
-          have hq'j : j = i → q' = e.parts := by
-            intro hji
-            rcases hnew q' j hmem with hold | ⟨h1, _⟩
-            · subst hji; rw [← hqp]; exact hinv.inj _ _ _ hold hq
-            · exact h1
-          by_cases hji : j = i
-          · subst hji
-            rw [getD_set_eq _ _ _ _ hi] at hb
-            rcases PMap.mem_set hb with ⟨rfl, rfl⟩ | hb
-            · exact ⟨(hq'j rfl).symm, by simp, rfl⟩
-            · obtain ⟨h1, h2, h3⟩ := hinv.src q j hq m pol hb
-              exact ⟨by rw [h1, hqp, hq'j rfl], by simp [h2], h3⟩
-          · rw [getD_set_ne _ _ _ _ _ (Ne.symm hji)] at hb
-            rcases hnew q' j hmem with hold | ⟨_, h2⟩
-            · obtain ⟨h1, h2, h3⟩ := hinv.src q' j hold m pol hb
-              exact ⟨h1, by simp [h2], h3⟩
-            · exact absurd h2 hji
-        · intro q1 q2 j h1 h2
-          rcases hnew q1 j h1 with o1 | ⟨e1, j1⟩ <;> rcases hnew q2 j h2 with o2 | ⟨e2, j2⟩
-          · exact hinv.inj _ _ _ o1 o2
-          · subst j2; rw [e2, ← hqp]; exact hinv.inj _ _ _ o1 hq
-          · subst j1; rw [e1, ← hqp]; exact hinv.inj _ _ _ hq o2
-          · rw [e1, e2]
-        · exact dom_append_new hinv.dom
-        · exact cov_append_new hinv.cov
-    | none =>
-      rw [hl] at h
-      simp only at h
-      split at h
-      · simp at h
-      · rename_i t' hins
-        simp at h
-        subst h
-        have hnames := insertParts_namesOK hinv.names hins
-        rw [insertParts_declared hins] at hnames ⊢
-        have hnew := fun q' j => @mem_append_new pt.tree e.parts pt.store.length q' j
-        refine ⟨?_, hnames, ?_, ?_, ?_, ?_, ?_⟩
-        · intro x hx
-          rcases List.mem_append.mp hx with hx | hx
-          · exact hinv.wl x hx
-          · simp at hx; subst hx; exact wildLast_trunc _
-        · intro q' j hmem
-          simp only [List.length_append, List.length_cons, List.length_nil]
-          rcases hnew q' j hmem with hold | ⟨_, rfl⟩
-          · have := hinv.idx q' j hold; omega
-          · omega
-        · intro q' j hmem m pol hb
-          rcases hnew q' j hmem with hold | ⟨h1, h2⟩
-          · have hj := hinv.idx q' j hold
-            have : (pt.store ++ [[(e.method, (⟨e⟩ : Policy))]]).getD j [] = pt.store.getD j [] := by
-              simp [List.getD, List.getElem?_append_left hj]
-            rw [this] at hb
-            obtain ⟨h1, h2, h3⟩ := hinv.src q' j hold m pol hb
-            exact ⟨h1, by simp [h2], h3⟩
-          · subst h2
-            have : (pt.store ++ [[(e.method, (⟨e⟩ : Policy))]]).getD pt.store.length [] = [(e.method, ⟨e⟩)] := by
-              simp [List.getD]
-            rw [this] at hb
-            simp at hb
-            obtain ⟨rfl, rfl⟩ := hb
-            exact ⟨h1.symm, by simp, rfl⟩
-        · intro q1 q2 j h1 h2
-          rcases hnew q1 j h1 with o1 | ⟨e1, j1⟩ <;> rcases hnew q2 j h2 with o2 | ⟨e2, j2⟩
-          · exact hinv.inj _ _ _ o1 o2
-          · have := hinv.idx _ _ o1; omega
-          · have := hinv.idx _ _ o2; omega
-          · rw [e1, e2]
-        · exact dom_append_new hinv.dom
-        · exact cov_append_new hinv.cov
-
-/-! ### the whole build; soundness of the selection -/
-
-theorem crossMatchEarlier_cons {e : Endpoint} {rest : List Endpoint}
-    (h : crossMatchEarlier (e :: rest) = false) :
-    (∀ e2 ∈ rest, e.parts ≠ e2.parts → matchesLax e.parts e2.parts = false) ∧
-    crossMatchEarlier rest = false := by
-  simp only [crossMatchEarlier, Bool.or_eq_false_iff] at h
-  refine ⟨?_, h.1⟩
-  intro e2 he2 hne
-  have := h.2
-  rw [List.any_eq_false] at this
-  have := this e2 he2
-  simpa [hne] using this
-
-theorem buildFrom_inv (es : List Endpoint) : ∀ (pt pt' : PTree) (done : List Endpoint),
-    Inv pt done → (∀ e ∈ es, Fresh done e) → crossMatchEarlier es = false →
-    buildFrom pt es = .ok pt' → Inv pt' (done ++ es) := by
-  induction es with
-  | nil => intro pt pt' done hinv _ _ h; simp [buildFrom] at h; subst h; simpa using hinv
-  | cons e rest ih =>
-    intro pt pt' done hinv hfresh hcm h
-    unfold buildFrom at h
-    split at h
-    · simp at h
-    · rename_i pt1 hadd
-      obtain ⟨hhead, hrest⟩ := crossMatchEarlier_cons hcm
-      have hinv1 := addEndpoint_inv hinv (hfresh e (by simp)) hadd
-      have := ih pt1 pt' (done ++ [e]) hinv1 ?_ hrest h
-      · simpa using this
-      · intro x hx e' he' hne
-        rcases List.mem_append.mp he' with he' | he'
-        · exact hfresh x (by simp [hx]) e' he' hne
-        · simp at he'; subst he'
-          exact hhead x hx hne
-
-theorem build_inv {es : List Endpoint} {pt : PTree}
-    (hcm : crossMatchEarlier es = false) (h : build es = .ok pt) : Inv pt es := by
-  have := buildFrom_inv es .empty pt [] inv_empty (by intro e _ e' he'; simp at he') hcm h
-  simpa using this
-
-theorem select_some {pt : PTree} {m : String} {us : List Part} {i : Nat}
-    (h : (lookupParts pt.tree us).value = some i) :
-    select pt m us = ⟨true, (pt.store.getD i []).find? m, (lookupParts pt.tree us).norm,
-      (lookupParts pt.tree us).params⟩ := by
-  simp [select, h]
-
-theorem select_none {pt : PTree} {m : String} {us : List Part}
-    (h : (lookupParts pt.tree us).value = none) :
-    select pt m us = ⟨false, none, (lookupParts pt.tree us).norm, (lookupParts pt.tree us).params⟩ := by
-  simp [select, h]
-
-/-- The policy the dispatcher selects was declared for this method and its pattern matches the URL. -/
-theorem select_sound {pt : PTree} {es : List Endpoint} (hinv : Inv pt es) (m : String) (us : List Part)
-    (hne : urlNonEmpty us = true) (hfl : boundaryMix es us = false) (pol : Policy)
-    (h : (select pt m us).policy = some pol) :
-    pol.src ∈ es ∧ pol.src.method = m ∧ «matches» pol.src.parts us = true := by
-  cases hl : (lookupParts pt.tree us).value with
-  | none => rw [select_none hl] at h; simp at h
-  | some i =>
-    rw [select_some hl] at h
-    simp only at h
-    obtain ⟨q, hq, hm⟩ := lookupParts_sound_lax pt.tree us i hinv.wl hne hl
-    obtain ⟨h1, h2, h3⟩ := hinv.src q i hq m pol (PMap.mem_of_find? h)
-    refine ⟨h2, h3, ?_⟩
-    rw [h1]
-    apply matches_of_lax q us hm
-    have hb := hfl
-    unfold boundaryMix at hb
-    rw [List.any_eq_false] at hb
-    have := hb pol.src h2
-    rw [h1] at this
-    simpa using this
-
-theorem soundOk_of_select {pt : PTree} {es : List Endpoint} (g : Globals) (m : String) (us : List Part)
-    (hsel : ∀ pol, (select pt m us).policy = some pol →
-      pol.src ∈ es ∧ pol.src.method = m ∧ «matches» pol.src.parts us = true) :
-    soundOk es m us (observe pt g m us) = true := by
-  unfold soundOk observe
-  cases hp : (select pt m us).policy with
-  | none => simp [getRemedies, getDiagnoses, hp]
-  | some pol =>
-    obtain ⟨h1, h2, h3⟩ := hsel pol hp
-    simp only [hp, Option.map_some]
-    rw [List.any_eq_true]
-    refine ⟨pol.src, h1, ?_⟩
-    simp [soundFor, h2, h3, getRemedies, getDiagnoses, hp, enabledRemedies, enabledDiags]
-
-
-/-! ### exact normalised URL and parameters -/
-
-theorem tree_aligned {pt : PTree} {es : List Endpoint} (hinv : Inv pt es) {u : Url}
-    (h : boundaryMix es u = false) : Aligned pt.tree u := by
-  intro ⟨q, ov⟩ hmem
-  obtain ⟨e, he, hq, _⟩ := hinv.dom q ov hmem
-  unfold boundaryMix at h
-  rw [List.any_eq_false] at h
-  have := h e he
-  simp only [hq, flagsOK_trunc]
-  simpa using this
-
-theorem tree_clean {pt : PTree} {es : List Endpoint} (hinv : Inv pt es) {u : Url}
-    (h : wildDisplaced es u = false) : Clean pt.tree u := by
-  intro ⟨w, wv⟩ hw n hn
-  obtain ⟨e, he, hq, _⟩ := hinv.dom w wv hw
-  unfold wildDisplaced displaced at h
-  rw [List.any_eq_false] at h
-  have hw' := h w (by rw [hq]; exact List.mem_map.mpr ⟨e, he, rfl⟩)
-  simp only at hn
-  rw [hn] at hw'
-  simp only [Bool.or_eq_true, beq_iff_eq, not_or] at hw'
-  refine ⟨hw'.1, ?_⟩
-  intro ⟨q', ov'⟩ he'
-  obtain ⟨e', he'', hq', _⟩ := hinv.dom q' ov' he'
-  have := hw'.2
-  rw [Bool.not_eq_true, List.any_eq_false] at this
-  have := this q' (by rw [hq']; exact List.mem_map.mpr ⟨e', he'', rfl⟩)
-  simpa using this
-
-/-- Outside the excluded classes the normalised URL IS the applied policy's pattern and the parameters
-    are the bindings along that pattern. -/
-theorem select_exact {pt : PTree} {es : List Endpoint} (hinv : Inv pt es) (m : String) (us : List Part)
-    (hne : urlNonEmpty us = true) (hfl : boundaryMix es us = false) (hwd : wildDisplaced es us = false)
-    (pol : Policy) (h : (select pt m us).policy = some pol) :
-    (select pt m us).norm = pol.src.parts ∧ (select pt m us).params = bindParams [] pol.src.parts us := by
-  cases hl : (lookupParts pt.tree us).value with
-  | none => rw [select_none hl] at h; simp at h
-  | some i =>
-    rw [select_some hl] at h ⊢
-    simp only at h ⊢
-    have hmatch := lookGo_value_isMatch us pt.tree none [] [] i hl
-    obtain ⟨q, hq, _, hnorm, hpar⟩ := lookGo_exact us pt.tree [] [] hinv.wl hinv.names hne
-      (tree_aligned hinv hfl) (tree_clean hinv hwd) hmatch
-    have hl' : (lookGo pt.tree none [] [] us).value = some i := hl
-    rw [hl'] at hq
-    obtain ⟨h1, _, _⟩ := hinv.src q i hq m pol (PMap.mem_of_find? h)
-    unfold lookupParts
-    rw [hnorm, hpar, h1]
-    simp
-
-
-/-- Shape shared by (M), (P), (N): the applied endpoint is sound and has the extra property. -/
-theorem any_soundFor {pt : PTree} {es : List Endpoint} (g : Globals) (m : String) (us : List Part)
-    (extra : Endpoint → Bool)
-    (hsel : ∀ pol, (select pt m us).policy = some pol →
-      pol.src ∈ es ∧ pol.src.method = m ∧ «matches» pol.src.parts us = true)
-    (hextra : ∀ pol, (select pt m us).policy = some pol → extra pol.src = true) :
-    (match (observe pt g m us).pol with
-     | none => true
-     | some _ => es.any fun e => soundFor m us (observe pt g m us) e && extra e) = true := by
-  cases hp : (select pt m us).policy with
-  | none => simp [observe, hp]
-  | some pol =>
-    obtain ⟨h1, h2, h3⟩ := hsel pol hp
-    have hpol : (observe pt g m us).pol = some pol.src.url := by simp [observe, hp]
-    rw [hpol]
-    simp only
-    rw [List.any_eq_true]
-    refine ⟨pol.src, h1, ?_⟩
-    rw [Bool.and_eq_true]
-    refine ⟨?_, hextra pol hp⟩
-    simp [soundFor, h2, h3, observe, getRemedies, getDiagnoses, hp, enabledRemedies, enabledDiags]
-
-/-! ### most specific -/
-
-theorem select_most_specific {pt : PTree} {es : List Endpoint} (hinv : Inv pt es) (m : String) (us : List Part)
-    (hne : urlNonEmpty us = true) (hfl : boundaryMix es us = false)
-    (pol : Policy) (h : (select pt m us).policy = some pol) :
-    mostSpecificFor es us pol.src = true := by
-  cases hl : (lookupParts pt.tree us).value with
-  | none => rw [select_none hl] at h; simp at h
-  | some i =>
-    rw [select_some hl] at h
-    simp only at h
-    have hmatch : (lookupParts pt.tree us).isMatch = true := lookGo_value_isMatch us pt.tree none [] [] i hl
-    obtain ⟨q, hq, _, hall⟩ := lookupParts_most_specific pt.tree us hinv.wl hne (tree_aligned hinv hfl) hmatch
-    rw [hl] at hq
-    obtain ⟨h1, _, _⟩ := hinv.src q i hq m pol (PMap.mem_of_find? h)
-    unfold mostSpecificFor
-    rw [List.all_eq_true]
-    intro e' he'
-    cases hm : «matches» e'.parts us with
-    | false => simp
-    | true =>
-      have hlax := lax_of_matches _ _ hm
-      obtain ⟨j, hj⟩ := hinv.cov e' he' (wildLast_of_matchesLax _ _ hlax)
-      have := hall _ hj (by simp) hlax
-      rw [h1]
-      simpa using this
-
-/-! ### globals -/
-
-theorem filter_map_isEmpty {α β : Type} (l : List α) (p : α → Bool) (f : α → β) :
-    ((l.filter p).map f).isEmpty = !l.any p := by
-  induction l with
-  | nil => rfl
-  | cons a l ih =>
-    by_cases h : p a
-    · simp [List.filter, h]
-    · simp [List.filter, h]
-      simpa using ih
-
-/-- (G) holds of every model answer, unconditionally. -/
-theorem globalsOk_observe (pt : PTree) (g : Globals) (m : String) (us : List Part) :
-    globalsOk g (observe pt g m us) = true := by
-  unfold globalsOk observe
-  simp only [getRemedies, getDiagnoses, shouldDiagnose, beq_self_eq_true, Bool.true_and]
-  cases hp : (select pt m us).policy with
-  | none => simp
-  | some pol =>
-    have := filter_map_isEmpty pol.src.diags (·.enabled) id
-    simp only [List.map_id] at this
-    simp [this]
-
-
-/-! ### order independence: second invariant -/
+/-! ### policy maps, URL index, groups -/
 
 theorem PMap.find?_set_eq (mp : PMap) (k : String) (p : Policy) : PMap.find? (PMap.set mp k p) k = some p := by
   induction mp with
@@ -462,219 +31,498 @@ theorem PMap.find?_set_ne (mp : PMap) (k m : String) (p : Policy) (h : m ≠ k) 
       · subst hm; simp [hk, PMap.find?]
       · simp [hk, PMap.find?, hm, ih]
 
-/-- Extra invariant needed for order independence (needs the symmetric no-cross-match hypothesis, distinct
-    (method, pattern) keys and consistent host flags among the declarations). -/
-structure Inv2 (pt : PTree) (done : List Endpoint) : Prop where
-  coh : ∀ q ov ov', (q, ov) ∈ pt.tree → (q, ov') ∈ pt.tree → ov = ov'
-  bind : ∀ e ∈ done, wildLast e.parts = true →
-    ∃ i, (e.parts, some i) ∈ pt.tree ∧ PMap.find? (pt.store.getD i []) e.method = some ⟨e⟩
-  covT : ∀ e ∈ done, ∃ ov, (trunc e.parts, ov) ∈ pt.tree ∧
-    (ov = none ↔ (trunc e.parts).length < e.parts.length)
+theorem UrlIndex.find?_some {ix : UrlIndex} {ps : List Part} {i : Nat} (h : ix.find? ps = some i) :
+    (ps, i) ∈ ix := by
+  induction ix with
+  | nil => simp [UrlIndex.find?] at h
+  | cons ki rest ih =>
+    obtain ⟨k, j⟩ := ki
+    unfold UrlIndex.find? at h
+    by_cases hk : k = ps
+    · simp [hk] at h; subst h; subst hk; simp
+    · simp [hk] at h; exact List.mem_cons_of_mem _ (ih h)
 
-theorem inv2_empty : Inv2 .empty [] := by
-  constructor <;> simp [PTree.empty]
+theorem UrlIndex.find?_none {ix : UrlIndex} {ps : List Part} (h : ix.find? ps = none) (i : Nat) :
+    (ps, i) ∉ ix := by
+  induction ix with
+  | nil => simp
+  | cons ki rest ih =>
+    obtain ⟨k, j⟩ := ki
+    unfold UrlIndex.find? at h
+    by_cases hk : k = ps
+    · simp [hk] at h
+    · simp [hk] at h
+      intro hm
+      rcases List.mem_cons.mp hm with hm | hm
+      · simp at hm; exact hk hm.1.symm
+      · exact ih h hm
 
-/-- Hypotheses on the new endpoint relative to those already declared. -/
-structure Fresh2 (done : List Endpoint) (e : Endpoint) : Prop where
-  cross : ∀ e' ∈ done, e'.parts ≠ e.parts →
-    matchesLax (trunc e'.parts) e.parts = false ∧ matchesLax (trunc e.parts) e'.parts = false
-  nodup : ∀ e' ∈ done, ¬ (e'.method = e.method ∧ e'.parts = e.parts)
-  flags : ∀ e1 ∈ done, ∀ e2 ∈ done, flagsOK e1.parts e2.parts = true
+theorem group_append (done : List Endpoint) (e : Endpoint) (m : String) (p : Pattern) :
+    group (done ++ [e]) m p = group done m p ++ (if e.method = m ∧ e.parts = p then [e] else []) := by
+  unfold group
+  rw [List.filter_append]
+  congr 1
+  by_cases h : e.method = m ∧ e.parts = p
+  · simp [h]
+  · rw [if_neg h]
+    simp only [List.filter_cons, List.filter_nil]
+    have : (e.method == m && e.parts == p) = false := by
+      rcases Classical.not_and_iff_not_or_not.mp h with h | h <;> simp [h]
+    simp [this]
 
-theorem tree_partsOK {pt : PTree} {done : List Endpoint} (hinv : Inv pt done)
-    (hfl : ∀ e1 ∈ done, ∀ e2 ∈ done, flagsOK e1.parts e2.parts = true) : PartsOK pt.tree := by
-  intro ⟨q1, v1⟩ h1 ⟨q2, v2⟩ h2
-  obtain ⟨e1, he1, hq1, _⟩ := hinv.dom _ _ h1
-  obtain ⟨e2, he2, hq2, _⟩ := hinv.dom _ _ h2
-  apply partsAgree_of _ _ (hinv.names _ h1 _ h2)
-  simp only [hq1, hq2]
-  exact hostsAgree_of_flagsOK _ _ (hfl e1 he1 e2 he2)
+theorem mem_group {eps : List Endpoint} {m : String} {p : Pattern} {x : Endpoint} :
+    x ∈ group eps m p ↔ x ∈ eps ∧ x.method = m ∧ x.parts = p := by
+  simp [group, List.mem_filter]
 
-theorem rcoh_of_coh {pt : PTree} {done : List Endpoint} (h : Inv2 pt done) : RCoh pt.tree := by
-  intro ⟨q1, v1⟩ h1 ⟨q2, v2⟩ h2 heq
-  simp only at heq
-  subst heq
-  exact h.coh _ _ _ h1 h2
+/-- The policy the build holds for method `m` and pattern `p` after the declarations `done`. -/
+def polOf (done : List Endpoint) (m : String) (p : Pattern) : Option Policy :=
+  if (group done m p).isEmpty then none else some ⟨group done m p⟩
 
-/-- Under `Fresh2`, a declared pattern that is already in the tree with a value is found by the lookup of
-    its own URL. -/
-theorem lookup_self {pt : PTree} {done : List Endpoint} {e : Endpoint} (hinv : Inv pt done) (h2 : Inv2 pt done)
-    (hf : Fresh2 done e) {j : Nat} (hm : (e.parts, some j) ∈ pt.tree) :
-    (lookupParts pt.tree e.parts).value = some j := by
-  apply lookGo_self e.parts pt.tree none [] [] j hinv.wl (tree_partsOK hinv hf.flags) (rcoh_of_coh h2) hm
-  intro ⟨q', ov'⟩ hm' hne
-  obtain ⟨e'', he'', hq', _⟩ := hinv.dom _ _ hm'
-  simp only at hne ⊢
-  by_cases hd : e''.parts = e.parts
-  · exfalso
-    apply hne
-    rw [hq', hd]
-    exact trunc_of_wildLast _ (hinv.wl _ hm)
-  · rw [hq']; exact (hf.cross e'' he'' hd).1
+/-- Value of the trie entry of a declared pattern: none when the pattern goes on after a `*`. -/
+def entryVal (p : Pattern) (i : Nat) : Option Nat := if (trunc p).length < p.length then none else some i
 
-theorem addEndpoint_inv2 {pt pt' : PTree} {done : List Endpoint} {e : Endpoint}
-    (hinv : Inv pt done) (h2 : Inv2 pt done) (hf : Fresh2 done e) (h : addEndpoint pt e = .ok pt') :
-    Inv2 pt' (done ++ [e]) := by
-  have hinv' : Inv pt' (done ++ [e]) :=
-    addEndpoint_inv hinv (fun e' he' hd => by
-      have := (hf.cross e' he' hd).1
-      cases hm : matchesLax e'.parts e.parts with
-      | false => rfl
-      | true =>
-        rw [trunc_of_wildLast _ (wildLast_of_matchesLax _ _ hm), hm] at this
-        exact this) h
+theorem entryVal_some {p : Pattern} {i j : Nat} (h : entryVal p i = some j) : j = i ∧ trunc p = p := by
+  unfold entryVal at h
+  by_cases hlt : (trunc p).length < p.length
+  · simp [hlt] at h
+  · simp [hlt] at h; exact ⟨h.symm, trunc_eq_of_length _ hlt⟩
+
+theorem entryVal_wildLast {p : Pattern} (i : Nat) (h : wildLast p = true) : entryVal p i = some i := by
+  simp [entryVal, trunc_of_wildLast _ h]
+
+/-! ### the build invariant (unconditional) -/
+
+structure Inv (pt : PTree) (done : List Endpoint) : Prop where
+  wl : WildLast pt.tree
+  names : NamesOK pt.tree
+  ixdom : ∀ p i, (p, i) ∈ pt.byUrl → i < pt.store.length ∧ ∃ e ∈ done, e.parts = p
+  ixfun : ∀ p i j, (p, i) ∈ pt.byUrl → (p, j) ∈ pt.byUrl → i = j
+  ixinj : ∀ p p' i, (p, i) ∈ pt.byUrl → (p', i) ∈ pt.byUrl → p = p'
+  ixcov : ∀ e ∈ done, ∃ i, (e.parts, i) ∈ pt.byUrl
+  tdom : ∀ q ov, (q, ov) ∈ pt.tree → ∃ p i, (p, i) ∈ pt.byUrl ∧ q = trunc p ∧ ov = entryVal p i
+  tcov : ∀ p i, (p, i) ∈ pt.byUrl → (trunc p, entryVal p i) ∈ pt.tree
+  bind : ∀ p i, (p, i) ∈ pt.byUrl → ∀ m, PMap.find? (pt.store.getD i []) m = polOf done m p
+
+theorem inv_empty : Inv .empty [] := by
+  constructor <;> simp [PTree.empty, WildLast, NamesOK]
+
+theorem getD_set_eq {α : Type} (l : List α) (i : Nat) (a d : α) (h : i < l.length) :
+    (l.set i a).getD i d = a := by
+  simp [List.getD, h]
+
+theorem getD_set_ne {α : Type} (l : List α) (i j : Nat) (a d : α) (h : i ≠ j) :
+    (l.set i a).getD j d = l.getD j d := by
+  simp [List.getD, List.getElem?_set_ne h]
+
+theorem addEndpoint_inv {pt pt' : PTree} {done : List Endpoint} {e : Endpoint}
+    (hinv : Inv pt done) (h : addEndpoint pt e = .ok pt') : Inv pt' (done ++ [e]) := by
   unfold addEndpoint at h
   split at h
   · simp at h
-  · cases hl : (lookupParts pt.tree e.parts).value with
+  · cases hf : pt.byUrl.find? e.parts with
     | some i =>
-      rw [hl] at h
+      rw [hf] at h
       simp only at h
       split at h
       · simp at h
       · rename_i t' hins
         simp at h
         subst h
-        obtain ⟨hval, _, _, _⟩ := insertParts_ok hins
-        have hne := validateParts_none hval
-        obtain ⟨q, hq, hm⟩ := lookupParts_sound_lax pt.tree e.parts i hinv.wl hne hl
-        obtain ⟨e', he', hqe, hqs⟩ := hinv.dom q (some i) hq
-        have hqe' : q = e'.parts := by
-          rw [hqe]
-          exact trunc_eq_of_length _ (fun hlt => by have := hqs.mpr hlt; simp at this)
-        have hqp : q = e.parts := by
-          by_cases hd : e'.parts = e.parts
-          · rw [hqe', hd]
-          · have := (hf.cross e' he' hd).1
-            rw [← hqe] at this
-            rw [hm] at this
-            simp at this
-        have hwle : wildLast e.parts = true := by rw [← hqp]; exact hinv.wl _ hq
-        have htr : trunc e.parts = e.parts := trunc_of_wildLast _ hwle
-        have hi : i < pt.store.length := hinv.idx q i hq
-        rw [insertParts_declared hins]
-        simp only [htr, Nat.lt_irrefl, if_false]
-        rw [hqp] at hq
-        refine ⟨?_, ?_, ?_⟩
-        · intro q' ov ov' hm1 hm2
-          rcases List.mem_append.mp hm1 with hm1 | hm1 <;> rcases List.mem_append.mp hm2 with hm2 | hm2
-          · exact h2.coh _ _ _ hm1 hm2
-          · simp at hm2; obtain ⟨rfl, rfl⟩ := hm2; exact h2.coh _ _ _ hm1 hq
-          · simp at hm1; obtain ⟨rfl, rfl⟩ := hm1; exact h2.coh _ _ _ hq hm2
-          · simp at hm1 hm2; rw [hm1.2, hm2.2]
-        · intro x hx hwx
+        have hmem : (e.parts, i) ∈ pt.byUrl := UrlIndex.find?_some hf
+        have hi : i < pt.store.length := (hinv.ixdom _ _ hmem).1
+        have hnames := insertParts_namesOK hinv.names hins
+        have hwl := insertParts_wildLast hinv.wl hins
+        rw [insertParts_declared hins] at hnames hwl ⊢
+        refine ⟨hwl, hnames, ?_, hinv.ixfun, hinv.ixinj, ?_, ?_, ?_, ?_⟩
+        · intro p j hm
+          obtain ⟨h1, x, hx, hxp⟩ := hinv.ixdom p j hm
+          exact ⟨by simpa [setStore] using h1, x, by simp [hx], hxp⟩
+        · intro x hx
           rcases List.mem_append.mp hx with hx | hx
-          · obtain ⟨k, hk, hfind⟩ := h2.bind x hx hwx
-            refine ⟨k, List.mem_append_left _ hk, ?_⟩
-            simp only [setStore]
-            by_cases hki : i = k
-            · subst hki
-              rw [getD_set_eq _ _ _ _ hi]
-              have hxp : x.parts = e.parts := hinv.inj _ _ _ hk hq
-              have hxm : x.method ≠ e.method := fun hmm => hf.nodup x hx ⟨hmm, hxp⟩
-              rw [PMap.find?_set_ne _ _ _ _ hxm]
-              exact hfind
-            · rw [getD_set_ne _ _ _ _ _ hki]; exact hfind
-          · simp only [List.mem_singleton] at hx
-            subst hx
-            refine ⟨i, List.mem_append_right _ (by simp), ?_⟩
-            simp only [setStore]
+          · exact hinv.ixcov x hx
+          · simp at hx; subst hx; exact ⟨i, hmem⟩
+        · intro q ov hm
+          rcases List.mem_append.mp hm with hm | hm
+          · exact hinv.tdom q ov hm
+          · simp only [List.mem_singleton, Prod.mk.injEq] at hm
+            exact ⟨e.parts, i, hmem, hm.1, by rw [hm.2]; rfl⟩
+        · intro p j hm
+          exact List.mem_append_left _ (hinv.tcov p j hm)
+        · intro p j hm m
+          rw [polOf, group_append]
+          simp only [setStore]
+          by_cases hji : j = i
+          · subst hji
+            have hp : p = e.parts := hinv.ixinj _ _ _ hm hmem
+            subst hp
             rw [getD_set_eq _ _ _ _ hi]
-            exact PMap.find?_set_eq _ _ _
-        · intro x hx
-          rcases List.mem_append.mp hx with hx | hx
-          · obtain ⟨ov, hov, hiff⟩ := h2.covT x hx
-            exact ⟨ov, List.mem_append_left _ hov, hiff⟩
-          · simp only [List.mem_singleton] at hx
-            subst hx
-            exact ⟨some i, List.mem_append_right _ (by simp [htr]), by simp [htr]⟩
+            by_cases hmm : m = e.method
+            · subst hmm
+              rw [PMap.find?_set_eq]
+              simp only [and_self, if_true]
+              have hold := hinv.bind _ _ hmem e.method
+              rw [List.getD_eq_getElem?_getD] at hold
+              rw [hold, polOf]
+              by_cases hg : (group done e.method e.parts).isEmpty
+              · simp only [hg, if_true]
+                have : group done e.method e.parts = [] := by simpa using hg
+                simp [this]
+              · simp [hg]
+            · rw [PMap.find?_set_ne _ _ _ _ hmm]
+              have : ¬ (e.method = m ∧ e.parts = e.parts) := fun hh => hmm hh.1.symm
+              rw [if_neg this, List.append_nil]
+              exact hinv.bind _ _ hmem m
+          · rw [getD_set_ne _ _ _ _ _ (Ne.symm hji)]
+            have : ¬ (e.method = m ∧ e.parts = p) := by
+              intro hh
+              exact hji (hinv.ixfun _ _ _ (by rw [hh.2]; exact hm) hmem)
+            rw [if_neg this, List.append_nil]
+            exact hinv.bind _ _ hm m
     | none =>
-      rw [hl] at h
+      rw [hf] at h
       simp only at h
       split at h
       · simp at h
       · rename_i t' hins
         simp at h
         subst h
-        rw [insertParts_declared hins]
-        -- no entry with the new (cut) pattern carries a different value
-        have hnew : ∀ ov, (trunc e.parts, ov) ∈ pt.tree →
-            ov = (if (trunc e.parts).length < e.parts.length then none else some pt.store.length) := by
-          intro ov hov
-          obtain ⟨e', he', hqe, hqs⟩ := hinv.dom _ _ hov
-          cases ov with
-          | some j =>
-            exfalso
-            have hnt : ¬ (trunc e'.parts).length < e'.parts.length := fun hlt => by
-              have := hqs.mpr hlt; simp at this
-            have he'p : trunc e'.parts = e'.parts := trunc_eq_of_length _ hnt
-            by_cases hd : e'.parts = e.parts
-            · have hwle : wildLast e.parts = true := by
-                rw [← hd, ← he'p]; exact wildLast_trunc _
-              rw [trunc_of_wildLast _ hwle] at hov
-              have := lookup_self hinv h2 hf hov
-              rw [hl] at this
-              simp at this
-            · have := (hf.cross e' he' hd).1
-              rw [← hqe, matchesLax_trunc_self] at this
-              simp at this
-          | none =>
-            have hlt := hqs.mp rfl
-            by_cases hlt' : (trunc e.parts).length < e.parts.length
-            · simp [hlt']
-            · exfalso
-              have hep : trunc e.parts = e.parts := trunc_eq_of_length _ hlt'
-              have hd : e'.parts ≠ e.parts := by
-                intro hd
-                rw [hd] at hlt
-                exact hlt' hlt
-              have := (hf.cross e' he' hd).2
-              rw [hqe, matchesLax_trunc_self] at this
-              simp at this
-        refine ⟨?_, ?_, ?_⟩
-        · intro q' ov ov' hm1 hm2
-          rcases List.mem_append.mp hm1 with hm1 | hm1 <;> rcases List.mem_append.mp hm2 with hm2 | hm2
-          · exact h2.coh _ _ _ hm1 hm2
-          · simp at hm2; obtain ⟨rfl, rfl⟩ := hm2; exact hnew _ hm1
-          · simp at hm1; obtain ⟨rfl, rfl⟩ := hm1; exact (hnew _ hm2).symm
-          · simp at hm1 hm2; rw [hm1.2, hm2.2]
-        · intro x hx hwx
-          rcases List.mem_append.mp hx with hx | hx
-          · obtain ⟨k, hk, hfind⟩ := h2.bind x hx hwx
-            refine ⟨k, List.mem_append_left _ hk, ?_⟩
-            have hkl := hinv.idx _ _ hk
-            have : (pt.store ++ [[(e.method, (⟨e⟩ : Policy))]]).getD k [] = pt.store.getD k [] := by
-              simp [List.getD, List.getElem?_append_left hkl]
-            rw [this]; exact hfind
-          · simp only [List.mem_singleton] at hx
-            subst hx
-            have htr : trunc x.parts = x.parts := trunc_of_wildLast _ hwx
-            refine ⟨pt.store.length, List.mem_append_right _ (by simp [htr]), ?_⟩
-            have : (pt.store ++ [[(x.method, (⟨x⟩ : Policy))]]).getD pt.store.length [] = [(x.method, ⟨x⟩)] := by
-              simp [List.getD]
-            rw [this]
-            simp [PMap.find?]
+        have hnone := UrlIndex.find?_none hf
+        have hnames := insertParts_namesOK hinv.names hins
+        have hwl := insertParts_wildLast hinv.wl hins
+        rw [insertParts_declared hins] at hnames hwl ⊢
+        have hnodone : ∀ x ∈ done, x.parts ≠ e.parts := by
+          intro x hx hxp
+          obtain ⟨j, hj⟩ := hinv.ixcov x hx
+          rw [hxp] at hj
+          exact hnone j hj
+        have hsplit : ∀ p j, (p, j) ∈ pt.byUrl ++ [(e.parts, pt.store.length)] →
+            (p, j) ∈ pt.byUrl ∨ (p = e.parts ∧ j = pt.store.length) := by
+          intro p j hm
+          rcases List.mem_append.mp hm with hm | hm
+          · exact .inl hm
+          · simp at hm; exact .inr hm
+        refine ⟨hwl, hnames, ?_, ?_, ?_, ?_, ?_, ?_, ?_⟩
+        · intro p j hm
+          simp only [List.length_append, List.length_cons, List.length_nil]
+          rcases hsplit p j hm with hm | ⟨rfl, rfl⟩
+          · obtain ⟨h1, x, hx, hxp⟩ := hinv.ixdom p j hm
+            exact ⟨by omega, x, by simp [hx], hxp⟩
+          · exact ⟨by omega, e, by simp, rfl⟩
+        · intro p j k h1 h2
+          rcases hsplit p j h1 with h1 | ⟨h1a, h1b⟩ <;> rcases hsplit p k h2 with h2 | ⟨h2a, h2b⟩
+          · exact hinv.ixfun _ _ _ h1 h2
+          · subst h2a; exact absurd h1 (hnone j)
+          · subst h1a; exact absurd h2 (hnone k)
+          · rw [h1b, h2b]
+        · intro p p' j h1 h2
+          rcases hsplit p j h1 with h1 | ⟨h1a, h1b⟩ <;> rcases hsplit p' j h2 with h2 | ⟨h2a, h2b⟩
+          · exact hinv.ixinj _ _ _ h1 h2
+          · have := (hinv.ixdom _ _ h1).1; omega
+          · have := (hinv.ixdom _ _ h2).1; omega
+          · rw [h1a, h2a]
         · intro x hx
           rcases List.mem_append.mp hx with hx | hx
-          · obtain ⟨ov, hov, hiff⟩ := h2.covT x hx
-            exact ⟨ov, List.mem_append_left _ hov, hiff⟩
-          · simp only [List.mem_singleton] at hx
-            subst hx
-            refine ⟨if (trunc x.parts).length < x.parts.length then none else some pt.store.length,
-              List.mem_append_right _ (by simp), ?_⟩
-            by_cases hlt : (trunc x.parts).length < x.parts.length <;> simp [hlt]
+          · obtain ⟨j, hj⟩ := hinv.ixcov x hx
+            exact ⟨j, List.mem_append_left _ hj⟩
+          · simp at hx; subst hx; exact ⟨pt.store.length, List.mem_append_right _ (by simp)⟩
+        · intro q ov hm
+          rcases List.mem_append.mp hm with hm | hm
+          · obtain ⟨p, j, hj, h1, h2⟩ := hinv.tdom q ov hm
+            exact ⟨p, j, List.mem_append_left _ hj, h1, h2⟩
+          · simp only [List.mem_singleton, Prod.mk.injEq] at hm
+            exact ⟨e.parts, pt.store.length, List.mem_append_right _ (by simp), hm.1, by rw [hm.2]; rfl⟩
+        · intro p j hm
+          rcases hsplit p j hm with hm | ⟨rfl, rfl⟩
+          · exact List.mem_append_left _ (hinv.tcov p j hm)
+          · exact List.mem_append_right _ (by simp [entryVal])
+        · intro p j hm m
+          rw [polOf, group_append]
+          rcases hsplit p j hm with hm | ⟨rfl, rfl⟩
+          · have hj := (hinv.ixdom _ _ hm).1
+            have hg : (pt.store ++ [[(e.method, (⟨[e]⟩ : Policy))]]).getD j [] = pt.store.getD j [] := by
+              simp [List.getD, List.getElem?_append_left hj]
+            rw [hg]
+            have : ¬ (e.method = m ∧ e.parts = p) := by
+              intro hh
+              exact hnone j (by rw [hh.2]; exact hm)
+            rw [if_neg this, List.append_nil]
+            exact hinv.bind _ _ hm m
+          · have hg : (pt.store ++ [[(e.method, (⟨[e]⟩ : Policy))]]).getD pt.store.length [] = [(e.method, ⟨[e]⟩)] := by
+              simp [List.getD]
+            rw [hg]
+            have hempty : group done m e.parts = [] := by
+              rw [List.eq_nil_iff_forall_not_mem]
+              intro x hx
+              obtain ⟨hx1, _, hx3⟩ := mem_group.mp hx
+              exact hnodone x hx1 hx3
+            rw [hempty]
+            by_cases hmm : e.method = m
+            · simp [hmm, PMap.find?]
+            · simp [hmm, PMap.find?]
 
+theorem buildFrom_inv (es : List Endpoint) : ∀ (pt pt' : PTree) (done : List Endpoint),
+    Inv pt done → buildFrom pt es = .ok pt' → Inv pt' (done ++ es) := by
+  induction es with
+  | nil => intro pt pt' done hinv h; simp [buildFrom] at h; subst h; simpa using hinv
+  | cons e rest ih =>
+    intro pt pt' done hinv h
+    unfold buildFrom at h
+    split at h
+    · simp at h
+    · rename_i pt1 hadd
+      have := ih pt1 pt' (done ++ [e]) (addEndpoint_inv hinv hadd) h
+      simpa using this
 
-theorem crossMatch_false {es : List Endpoint} (h : crossMatch es = false) :
-    ∀ e1 ∈ es, ∀ e2 ∈ es, e1.parts ≠ e2.parts → matchesLax (trunc e1.parts) e2.parts = false := by
-  intro e1 h1 e2 h2 hne
-  unfold crossMatch at h
+/-- Every successfully built endpoint list satisfies the invariant. -/
+theorem build_inv {es : List Endpoint} {pt : PTree} (h : build es = .ok pt) : Inv pt es := by
+  have := buildFrom_inv es .empty pt [] inv_empty h
+  simpa using this
+
+/-! ### consequences for the tree -/
+
+theorem Inv.entry_some {pt : PTree} {es : List Endpoint} (hinv : Inv pt es) {q : Pattern} {i : Nat}
+    (h : (q, some i) ∈ pt.tree) : (q, i) ∈ pt.byUrl := by
+  obtain ⟨p, j, hj, hq, hv⟩ := hinv.tdom _ _ h
+  obtain ⟨h1, h2⟩ := entryVal_some hv.symm
+  subst h1
+  rw [hq, h2]; exact hj
+
+theorem Inv.cov {pt : PTree} {es : List Endpoint} (hinv : Inv pt es) {e : Endpoint} (he : e ∈ es)
+    (hw : wildLast e.parts = true) : ∃ i, (e.parts, some i) ∈ pt.tree := by
+  obtain ⟨i, hi⟩ := hinv.ixcov e he
+  have := hinv.tcov _ _ hi
+  rw [trunc_of_wildLast _ hw, entryVal_wildLast i hw] at this
+  exact ⟨i, this⟩
+
+theorem Inv.dom {pt : PTree} {es : List Endpoint} (hinv : Inv pt es) {q : Pattern} {ov : Option Nat}
+    (h : (q, ov) ∈ pt.tree) : ∃ e ∈ es, q = trunc e.parts := by
+  obtain ⟨p, j, hj, hq, _⟩ := hinv.tdom _ _ h
+  obtain ⟨_, e, he, hep⟩ := hinv.ixdom _ _ hj
+  exact ⟨e, he, by rw [hq, hep]⟩
+
+theorem tree_aligned {pt : PTree} {es : List Endpoint} (hinv : Inv pt es) {u : Url}
+    (h : boundaryMix es u = false) : Aligned pt.tree u := by
+  intro ⟨q, ov⟩ hmem
+  obtain ⟨e, he, hq⟩ := hinv.dom hmem
+  unfold boundaryMix at h
   rw [List.any_eq_false] at h
-  have := h e1 h1
-  simp only [Bool.not_eq_true] at this
-  rw [List.any_eq_false] at this
-  have := this e2 h2
-  simpa [hne] using this
+  have := h e he
+  simp only [hq, flagsOK_trunc]
+  simpa using this
+
+theorem tree_clean {pt : PTree} {es : List Endpoint} (hinv : Inv pt es) {u : Url}
+    (h : wildDisplaced es u = false) : Clean pt.tree u := by
+  intro ⟨w, wv⟩ hw n hn
+  obtain ⟨e, he, hq⟩ := hinv.dom hw
+  unfold wildDisplaced displaced at h
+  rw [List.any_eq_false] at h
+  have hw' := h w (by rw [hq]; exact List.mem_map.mpr ⟨e, he, rfl⟩)
+  simp only at hn
+  rw [hn] at hw'
+  simp only [Bool.or_eq_true, beq_iff_eq, not_or] at hw'
+  refine ⟨hw'.1, ?_⟩
+  intro ⟨q', ov'⟩ he'
+  obtain ⟨e', he'', hq'⟩ := hinv.dom he'
+  have := hw'.2
+  rw [Bool.not_eq_true, List.any_eq_false] at this
+  have := this q' (by rw [hq']; exact List.mem_map.mpr ⟨e', he'', rfl⟩)
+  simpa using this
+
+/-! ### the selection -/
+
+theorem select_some {pt : PTree} {m : String} {us : List Part} {i : Nat}
+    (h : (lookupParts pt.tree us).value = some i) :
+    select pt m us = ⟨true, (pt.store.getD i []).find? m, (lookupParts pt.tree us).norm,
+      (lookupParts pt.tree us).params⟩ := by
+  simp [select, h]
+
+theorem select_none {pt : PTree} {m : String} {us : List Part}
+    (h : (lookupParts pt.tree us).value = none) :
+    select pt m us = ⟨false, none, (lookupParts pt.tree us).norm, (lookupParts pt.tree us).params⟩ := by
+  simp [select, h]
+
+/-- The selected policy is the whole group of declarations for the method and the pattern whose trie
+    entry the lookup returned. -/
+theorem select_policy {pt : PTree} {es : List Endpoint} (hinv : Inv pt es) {m : String} {us : List Part}
+    {pol : Policy} (h : (select pt m us).policy = some pol) :
+    ∃ q i, (lookupParts pt.tree us).value = some i ∧ (q, i) ∈ pt.byUrl ∧
+      pol = ⟨group es m q⟩ ∧ group es m q ≠ [] ∧
+      ∀ q', (q', some i) ∈ pt.tree → q' = q := by
+  cases hl : (lookupParts pt.tree us).value with
+  | none => rw [select_none hl] at h; simp at h
+  | some i =>
+    rw [select_some hl] at h
+    simp only at h
+    -- some entry carries the value: lax soundness is not needed here, membership is enough
+    obtain ⟨q, hq⟩ := lookupParts_value_mem pt.tree us i hl
+    have hqi := hinv.entry_some hq
+    rw [hinv.bind _ _ hqi m, polOf] at h
+    by_cases hg : (group es m q).isEmpty
+    · simp [hg] at h
+    · simp only [hg] at h
+      simp only [Bool.false_eq_true, if_false, Option.some.injEq] at h
+      refine ⟨q, i, rfl, hqi, h.symm, by simpa using hg, ?_⟩
+      intro q' hq'
+      exact hinv.ixinj _ _ _ (hinv.entry_some hq') hqi
+
+theorem enabled_flatMap_remedies (l : List Endpoint) :
+    ((l.flatMap (·.remedies)).filter (·.enabled)).map (·.name) = l.flatMap enabledRemedies := by
+  induction l with
+  | nil => rfl
+  | cons a l ih => simp [List.flatMap_cons, List.filter_append, enabledRemedies, ← ih]
+
+theorem enabled_flatMap_diags (l : List Endpoint) :
+    ((l.flatMap (·.diags)).filter (·.enabled)).map (·.name) = l.flatMap enabledDiags := by
+  induction l with
+  | nil => rfl
+  | cons a l ih => simp [List.flatMap_cons, List.filter_append, enabledDiags, ← ih]
+
+/-- What `select` returning a policy means (with the lax-soundness of the lookup). -/
+theorem select_char {pt : PTree} {es : List Endpoint} (hinv : Inv pt es) {m : String} {us : List Part}
+    (hne : urlNonEmpty us = true) {pol : Policy} (h : (select pt m us).policy = some pol) :
+    ∃ q i e, (lookupParts pt.tree us).value = some i ∧ (q, some i) ∈ pt.tree ∧ matchesLax q us = true ∧
+      pol = ⟨group es m q⟩ ∧ e ∈ es ∧ e.method = m ∧ e.parts = q ∧
+      (∀ q', (q', some i) ∈ pt.tree → q' = q) := by
+  obtain ⟨q, i, hl, _, hpol, hg, huniq⟩ := select_policy hinv h
+  obtain ⟨q', hq', hm⟩ := lookupParts_sound_lax pt.tree us i hinv.wl hne hl
+  have := huniq q' hq'
+  subst this
+  obtain ⟨e, he⟩ := List.exists_mem_of_ne_nil _ hg
+  obtain ⟨he1, he2, he3⟩ := mem_group.mp he
+  exact ⟨q', i, e, hl, hq', hm, hpol, he1, he2, he3, huniq⟩
+
+/-- Shape shared by (S), (M), (P), (N): some declaration of the applied group is sound and has the extra
+    property. -/
+theorem any_soundFor {pt : PTree} {es : List Endpoint} (hinv : Inv pt es) (g : Globals) (m : String)
+    (us : List Part) (hne : urlNonEmpty us = true) (hfl : boundaryMix es us = false)
+    (extra : Endpoint → Bool)
+    (hextra : ∀ q i e, (lookupParts pt.tree us).value = some i → (q, some i) ∈ pt.tree →
+      (select pt m us).policy = some ⟨group es m q⟩ → e ∈ es → e.parts = q → extra e = true) :
+    (match (observe pt g m us).pol with
+     | none => true
+     | some _ => es.any fun e => soundFor es m us (observe pt g m us) e && extra e) = true := by
+  cases hp : (select pt m us).policy with
+  | none => simp [observe, hp]
+  | some pol =>
+    obtain ⟨q, i, e, hl, hq, hm, hpol, he, hem, hep, _⟩ := select_char hinv hne hp
+    have hpolv : (observe pt g m us).pol = some pol.url := by simp [observe, hp]
+    rw [hpolv]
+    simp only
+    rw [List.any_eq_true]
+    refine ⟨e, he, ?_⟩
+    rw [Bool.and_eq_true]
+    refine ⟨?_, hextra q i e hl hq (by rw [hp, hpol]) he hep⟩
+    have hmatch : «matches» e.parts us = true := by
+      rw [hep]
+      apply matches_of_lax q us hm
+      have hb := hfl
+      unfold boundaryMix at hb
+      rw [List.any_eq_false] at hb
+      have := hb e he
+      rw [hep] at this
+      simpa using this
+    have hg : group es m q ≠ [] := by
+      intro hg
+      have : e ∈ group es m q := mem_group.mpr ⟨he, hem, hep⟩
+      rw [hg] at this; simp at this
+    have hurl : (group es m e.parts).any (fun x => (observe pt g m us).pol == some x.url) = true := by
+      rw [hep, hpolv, List.any_eq_true]
+      have hlast : ∃ l, (group es m q).getLast? = some l := by
+        cases hgl : (group es m q).getLast? with
+        | none => rw [List.getLast?_eq_none_iff] at hgl; exact absurd hgl hg
+        | some l => exact ⟨l, rfl⟩
+      obtain ⟨l, hl'⟩ := hlast
+      refine ⟨l, List.mem_of_getLast? hl', ?_⟩
+      simp [Policy.url, hpol, hl']
+    simp only [soundFor, hem, hmatch, hurl, beq_self_eq_true, Bool.true_and, Bool.and_eq_true, beq_iff_eq]
+    rw [hep]
+    constructor
+    · simp only [observe, getRemedies, hp, hpol, Policy.remedies]
+      exact enabled_flatMap_remedies _
+    · simp only [observe, getDiagnoses, hp, hpol, Policy.diags]
+      exact enabled_flatMap_diags _
+
+theorem soundOk_of_inv {pt : PTree} {es : List Endpoint} (hinv : Inv pt es) (g : Globals) (m : String)
+    (us : List Part) (hne : urlNonEmpty us = true) (hfl : boundaryMix es us = false) :
+    soundOk es m us (observe pt g m us) = true := by
+  have := any_soundFor hinv g m us hne hfl (fun _ => true) (fun _ _ _ _ _ _ _ _ => rfl)
+  unfold soundOk
+  cases hp : (observe pt g m us).pol with
+  | none =>
+    have : (select pt m us).policy = none := by
+      simpa [observe] using hp
+    simp [observe, getRemedies, getDiagnoses, this]
+  | some purl =>
+    rw [hp] at this
+    simpa using this
+
+
+theorem Inv.entry_uniq {pt : PTree} {es : List Endpoint} (hinv : Inv pt es) {q q' : Pattern} {i : Nat}
+    (h : (q, some i) ∈ pt.tree) (h' : (q', some i) ∈ pt.tree) : q' = q :=
+  hinv.ixinj _ _ _ (hinv.entry_some h') (hinv.entry_some h)
+
+/-- Outside the excluded classes the normalised URL IS the applied pattern and the parameters are the
+    bindings along that pattern. -/
+theorem exact_of_inv {pt : PTree} {es : List Endpoint} (hinv : Inv pt es) (us : List Part)
+    (hne : urlNonEmpty us = true) (hfl : boundaryMix es us = false) (hwd : wildDisplaced es us = false)
+    {q : Pattern} {i : Nat} (hl : (lookupParts pt.tree us).value = some i) (hq : (q, some i) ∈ pt.tree) :
+    (lookupParts pt.tree us).norm = q ∧ (lookupParts pt.tree us).params = bindParams [] q us := by
+  have hmatch := lookGo_value_isMatch us pt.tree none [] [] i hl
+  obtain ⟨q', hq', _, hnorm, hpar⟩ := lookGo_exact us pt.tree [] [] hinv.wl hinv.names hne
+    (tree_aligned hinv hfl) (tree_clean hinv hwd) hmatch
+  have hl' : (lookGo pt.tree none [] [] us).value = some i := hl
+  rw [hl'] at hq'
+  have := hinv.entry_uniq hq hq'
+  subst this
+  unfold lookupParts
+  rw [hnorm, hpar]
+  simp
+
+theorem most_specific_of_inv {pt : PTree} {es : List Endpoint} (hinv : Inv pt es) (us : List Part)
+    (hne : urlNonEmpty us = true) (hfl : boundaryMix es us = false)
+    {q : Pattern} {i : Nat} (hl : (lookupParts pt.tree us).value = some i) (hq : (q, some i) ∈ pt.tree)
+    {e : Endpoint} (hep : e.parts = q) : mostSpecificFor es us e = true := by
+  have hmatch : (lookupParts pt.tree us).isMatch = true := lookGo_value_isMatch us pt.tree none [] [] i hl
+  obtain ⟨q', hq', _, hall⟩ := lookupParts_most_specific pt.tree us hinv.wl hne (tree_aligned hinv hfl) hmatch
+  rw [hl] at hq'
+  have := hinv.entry_uniq hq hq'
+  subst this
+  unfold mostSpecificFor
+  rw [List.all_eq_true]
+  intro e' he'
+  cases hm : «matches» e'.parts us with
+  | false => simp
+  | true =>
+    have hlax := lax_of_matches _ _ hm
+    obtain ⟨j, hj⟩ := hinv.cov he' (wildLast_of_matchesLax _ _ hlax)
+    have := hall _ hj (by simp) hlax
+    rw [hep]
+    simpa using this
+
+theorem filter_map_isEmpty {α β : Type} (l : List α) (p : α → Bool) (f : α → β) :
+    ((l.filter p).map f).isEmpty = !l.any p := by
+  induction l with
+  | nil => rfl
+  | cons a l ih =>
+    by_cases h : p a
+    · simp [List.filter, h]
+    · simp [List.filter, h]
+      simpa using ih
+
+/-- (G) holds of every model answer, unconditionally. -/
+theorem globalsOk_observe (pt : PTree) (g : Globals) (m : String) (us : List Part) :
+    globalsOk g (observe pt g m us) = true := by
+  unfold globalsOk observe
+  simp only [getRemedies, getDiagnoses, shouldDiagnose, beq_self_eq_true, Bool.true_and]
+  cases hp : (select pt m us).policy with
+  | none => simp
+  | some pol =>
+    have := filter_map_isEmpty pol.diags (·.enabled) id
+    simp only [List.map_id] at this
+    simp [this]
+
+
+/-! ### order independence -/
 
 theorem cfgBoundaryMix_false {es : List Endpoint} (h : cfgBoundaryMix es = false) :
     ∀ e1 ∈ es, ∀ e2 ∈ es, flagsOK e1.parts e2.parts = true := by
@@ -688,122 +536,40 @@ theorem cfgBoundaryMix_false {es : List Endpoint} (h : cfgBoundaryMix es = false
   have := this e1 h1
   simpa using this
 
-theorem dupKeys_cons {e : Endpoint} {rest : List Endpoint} (h : dupKeys (e :: rest) = false) :
-    (∀ e2 ∈ rest, ¬ (e2.method = e.method ∧ e2.parts = e.parts)) ∧ dupKeys rest = false := by
-  simp only [dupKeys, Bool.or_eq_false_iff] at h
-  refine ⟨?_, h.2⟩
-  intro e2 he2 hk
-  have := h.1
-  rw [List.any_eq_false] at this
-  have := this e2 he2
-  simp [hk.1, hk.2] at this
+theorem starQuirk_false {es : List Endpoint} (h : starQuirk es = false) :
+    ∀ e ∈ es, wildLast e.parts = true := by
+  intro e he
+  unfold starQuirk at h
+  rw [List.any_eq_false] at h
+  simpa using h e he
 
-theorem buildFrom_inv2 (all : List Endpoint) (es : List Endpoint) : ∀ (pt pt' : PTree) (done : List Endpoint),
-    (∀ x ∈ done, x ∈ all) → (∀ x ∈ es, x ∈ all) →
-    crossMatch all = false → cfgBoundaryMix all = false →
-    (∀ e ∈ es, ∀ e' ∈ done, ¬ (e'.method = e.method ∧ e'.parts = e.parts)) → dupKeys es = false →
-    Inv pt done → Inv2 pt done → buildFrom pt es = .ok pt' →
-    Inv pt' (done ++ es) ∧ Inv2 pt' (done ++ es) := by
-  induction es with
-  | nil =>
-    intro pt pt' done _ _ _ _ _ _ hinv h2 h
-    simp [buildFrom] at h; subst h; simpa using ⟨hinv, h2⟩
-  | cons e rest ih =>
-    intro pt pt' done hdone hes hcm hfl hnd hdk hinv h2 h
-    unfold buildFrom at h
-    split at h
-    · simp at h
-    · rename_i pt1 hadd
-      have he : e ∈ all := hes e (by simp)
-      have hf : Fresh2 done e := by
-        refine ⟨?_, hnd e (by simp), ?_⟩
-        · intro e' he' hd
-          exact ⟨crossMatch_false hcm e' (hdone e' he') e he hd,
-                 crossMatch_false hcm e he e' (hdone e' he') (Ne.symm hd)⟩
-        · intro e1 h1 e2 h2'
-          exact cfgBoundaryMix_false hfl e1 (hdone e1 h1) e2 (hdone e2 h2')
-      have hfresh : Fresh done e := by
-        intro e' he' hd
-        have := (hf.cross e' he' hd).1
-        cases hm : matchesLax e'.parts e.parts with
-        | false => rfl
-        | true =>
-          rw [trunc_of_wildLast _ (wildLast_of_matchesLax _ _ hm), hm] at this
-          exact this
-      have hinv1 := addEndpoint_inv hinv hfresh hadd
-      have h21 := addEndpoint_inv2 hinv h2 hf hadd
-      obtain ⟨hd1, hd2⟩ := dupKeys_cons hdk
-      have := ih pt1 pt' (done ++ [e]) ?_ ?_ hcm hfl ?_ hd2 hinv1 h21 h
-      · simpa using this
-      · intro x hx
-        rcases List.mem_append.mp hx with hx | hx
-        · exact hdone x hx
-        · simp at hx; subst hx; exact he
-      · intro x hx; exact hes x (by simp [hx])
-      · intro x hx e' he'
-        rcases List.mem_append.mp he' with he' | he'
-        · exact hnd x (by simp [hx]) e' he'
-        · simp at he'; subst he'
-          intro hk
-          exact hd1 x hx ⟨hk.1.symm, hk.2.symm⟩
+theorem tree_partsOK {pt : PTree} {es : List Endpoint} (hinv : Inv pt es)
+    (hfl : ∀ e1 ∈ es, ∀ e2 ∈ es, flagsOK e1.parts e2.parts = true) : PartsOK pt.tree := by
+  intro ⟨q1, v1⟩ h1 ⟨q2, v2⟩ h2
+  obtain ⟨e1, he1, hq1⟩ := hinv.dom h1
+  obtain ⟨e2, he2, hq2⟩ := hinv.dom h2
+  apply partsAgree_of _ _ (hinv.names _ h1 _ h2)
+  simp only [hq1, hq2]
+  exact hostsAgree_of_flagsOK _ _ (hfl e1 he1 e2 he2)
 
-theorem build_inv2 {es : List Endpoint} {pt : PTree}
-    (hcm : crossMatch es = false) (hfl : cfgBoundaryMix es = false) (hdk : dupKeys es = false)
-    (h : build es = .ok pt) : Inv pt es ∧ Inv2 pt es := by
-  have := buildFrom_inv2 es es .empty pt [] (by simp) (fun x hx => hx) hcm hfl (by simp) hdk
-    inv_empty inv2_empty h
-  simpa using this
-
-
-theorem dupKeys_false_iff (es : List Endpoint) :
-    dupKeys es = false ↔ es.Pairwise (fun a b => ¬ (a.method = b.method ∧ a.parts = b.parts)) := by
-  induction es with
-  | nil => simp [dupKeys]
-  | cons e rest ih =>
-    rw [List.pairwise_cons, ← ih]
-    constructor
-    · intro h
-      obtain ⟨h1, h2⟩ := dupKeys_cons h
-      exact ⟨fun b hb hk => h1 b hb ⟨hk.1.symm, hk.2.symm⟩, h2⟩
-    · intro ⟨h1, h2⟩
-      simp only [dupKeys, Bool.or_eq_false_iff]
-      refine ⟨?_, h2⟩
-      rw [List.any_eq_false]
-      intro b hb
-      have := h1 b hb
-      simp only [Bool.and_eq_true, beq_iff_eq, not_and]
-      intro hm hp
-      exact this ⟨hm.symm, hp.symm⟩
-
-theorem dupKeys_perm {es es' : List Endpoint} (hp : es.Perm es') (h : dupKeys es = false) :
-    dupKeys es' = false := by
-  rw [dupKeys_false_iff] at h ⊢
-  exact (hp.pairwise_iff (fun {x y} hxy hk => hxy ⟨hk.1.symm, hk.2.symm⟩)).mp h
-
-theorem crossMatch_perm {es es' : List Endpoint} (hp : es.Perm es') (h : crossMatch es = false) :
-    crossMatch es' = false := by
-  have := crossMatch_false h
-  unfold crossMatch
-  rw [List.any_eq_false]
-  intro e1 h1
-  simp only [Bool.not_eq_true]
-  rw [List.any_eq_false]
-  intro e2 h2
-  by_cases hd : e1.parts = e2.parts
-  · simp [hd]
-  · simp [this e1 (hp.mem_iff.mpr h1) e2 (hp.mem_iff.mpr h2) hd]
-
-theorem cfgBoundaryMix_perm {es es' : List Endpoint} (hp : es.Perm es') (h : cfgBoundaryMix es = false) :
-    cfgBoundaryMix es' = false := by
-  have := cfgBoundaryMix_false h
-  unfold cfgBoundaryMix
-  rw [List.any_eq_false]
-  intro e2 h2
-  simp only [Bool.not_eq_true]
-  unfold boundaryMix
-  rw [List.any_eq_false]
-  intro e1 h1
-  simp [this e1 (hp.mem_iff.mpr h1) e2 (hp.mem_iff.mpr h2)]
+/-- Without inner `*`, entries with the same pattern carry the same value. -/
+theorem tree_rcoh {pt : PTree} {es : List Endpoint} (hinv : Inv pt es)
+    (hwl : ∀ e ∈ es, wildLast e.parts = true) : RCoh pt.tree := by
+  intro ⟨q1, v1⟩ h1 ⟨q2, v2⟩ h2 heq
+  simp only at heq
+  subst heq
+  obtain ⟨p, i, hi, hq, hv⟩ := hinv.tdom _ _ h1
+  obtain ⟨p', i', hi', hq', hv'⟩ := hinv.tdom _ _ h2
+  obtain ⟨_, e, he, hep⟩ := hinv.ixdom _ _ hi
+  obtain ⟨_, e', he', hep'⟩ := hinv.ixdom _ _ hi'
+  have hp : trunc p = p := by rw [← hep]; exact trunc_of_wildLast _ (hwl e he)
+  have hp' : trunc p' = p' := by rw [← hep']; exact trunc_of_wildLast _ (hwl e' he')
+  have hpp : p = p' := by rw [← hp, ← hp', ← hq, hq']
+  subst hpp
+  have := hinv.ixfun _ _ _ hi hi'
+  subst this
+  simp only
+  rw [hv, hv']
 
 /-- The policy an index stands for, per method. -/
 def polAt (store : List PMap) (ov : Option Nat) (m : String) : Option Policy :=
@@ -811,80 +577,71 @@ def polAt (store : List PMap) (ov : Option Nat) (m : String) : Option Policy :=
   | some i => PMap.find? (store.getD i []) m
   | none => none
 
-/-- Values of two builds of the same declarations correspond when they stand for the same policies. -/
+/-- Two policies made of the same declarations (in possibly different orders), or both absent. -/
+def PolRel : Option Policy → Option Policy → Prop
+  | none, none => True
+  | some p, some p' => p.srcs.Perm p'.srcs
+  | _, _ => False
+
 def ValRel (pt pt' : PTree) (ov ov' : Option Nat) : Prop :=
-  (ov = none ↔ ov' = none) ∧ ∀ m, polAt pt.store ov m = polAt pt'.store ov' m
+  (ov = none ↔ ov' = none) ∧ ∀ m, PolRel (polAt pt.store ov m) (polAt pt'.store ov' m)
 
-theorem policy_eta (p : Policy) : p = ⟨p.src⟩ := by cases p; rfl
+theorem polOf_perm {es es' : List Endpoint} (hp : es.Perm es') (m : String) (p : Pattern) :
+    PolRel (polOf es m p) (polOf es' m p) := by
+  have hg : (group es m p).Perm (group es' m p) := hp.filter _
+  unfold polOf
+  rw [hg.isEmpty_eq]
+  by_cases he : (group es' m p).isEmpty
+  · simp [he, PolRel]
+  · simp [he, PolRel, hg]
 
-/-- A binding of one build is a binding of the other (same pattern, any order). -/
-theorem pol_transfer {pt pt' : PTree} {es es' : List Endpoint}
-    (hinv : Inv pt es) (_hinv' : Inv pt' es') (h2' : Inv2 pt' es')
-    (hsub : ∀ x ∈ es, x ∈ es') {q : List Part} {i i' : Nat}
-    (hq : (q, some i) ∈ pt.tree) (hq' : (q, some i') ∈ pt'.tree) {m : String} {pol : Policy}
-    (hf : PMap.find? (pt.store.getD i []) m = some pol) :
-    PMap.find? (pt'.store.getD i' []) m = some pol := by
-  obtain ⟨hp, hsrc, hmeth⟩ := hinv.src q i hq m pol (PMap.mem_of_find? hf)
-  have hwl : wildLast pol.src.parts = true := by rw [hp]; exact hinv.wl _ hq
-  obtain ⟨k', hk', hfind'⟩ := h2'.bind pol.src (hsub _ hsrc) hwl
-  rw [hp] at hk'
-  have := h2'.coh _ _ _ hk' hq'
-  simp only [Option.some.injEq] at this
-  subst this
-  rw [hmeth] at hfind'
-  rw [hfind', ← policy_eta]
-
-theorem valRel_of {pt pt' : PTree} {es es' : List Endpoint}
-    (hinv : Inv pt es) (h2 : Inv2 pt es) (hinv' : Inv pt' es') (h2' : Inv2 pt' es')
-    (hsub : ∀ x ∈ es, x ∈ es') (hsub' : ∀ x ∈ es', x ∈ es)
-    {q : List Part} {ov ov' : Option Nat} (hq : (q, ov) ∈ pt.tree) (hq' : (q, ov') ∈ pt'.tree)
-    (hnone : ov = none ↔ ov' = none) : ValRel pt pt' ov ov' := by
-  refine ⟨hnone, ?_⟩
-  intro m
-  cases ov with
-  | none => have := hnone.mp rfl; subst this; rfl
-  | some i =>
-    cases ov' with
-    | none => have := hnone.mpr rfl; simp at this
-    | some i' =>
-      simp only [polAt]
-      cases hf : PMap.find? (pt.store.getD i []) m with
-      | some pol => exact (pol_transfer hinv hinv' h2' hsub hq hq' hf).symm
-      | none =>
-        cases hf' : PMap.find? (pt'.store.getD i' []) m with
-        | none => rfl
-        | some pol' =>
-          have := pol_transfer hinv' hinv h2 hsub' hq' hq hf'
-          rw [hf] at this
-          simp at this
-
-theorem tree_sim {pt pt' : PTree} {es es' : List Endpoint}
-    (hinv : Inv pt es) (h2 : Inv2 pt es) (hinv' : Inv pt' es') (h2' : Inv2 pt' es')
-    (hsub : ∀ x ∈ es, x ∈ es') (hsub' : ∀ x ∈ es', x ∈ es) :
-    Sim (ValRel pt pt') pt.tree pt'.tree := by
+theorem tree_sim {pt pt' : PTree} {es es' : List Endpoint} (hinv : Inv pt es) (hinv' : Inv pt' es')
+    (hp : es.Perm es') : Sim (ValRel pt pt') pt.tree pt'.tree := by
+  have half : ∀ {pt pt' : PTree} {es es' : List Endpoint}, Inv pt es → Inv pt' es' → es.Perm es' →
+      ∀ q ov, (q, ov) ∈ pt.tree → ∃ ov', (q, ov') ∈ pt'.tree ∧ (ov = none ↔ ov' = none) ∧
+        ∀ m, PolRel (polAt pt.store ov m) (polAt pt'.store ov' m) := by
+    intro pt pt' es es' hinv hinv' hp q ov hq
+    obtain ⟨p, i, hi, hqp, hv⟩ := hinv.tdom _ _ hq
+    obtain ⟨_, e, he, hep⟩ := hinv.ixdom _ _ hi
+    obtain ⟨i', hi'⟩ := hinv'.ixcov e (hp.mem_iff.mp he)
+    rw [hep] at hi'
+    refine ⟨entryVal p i', by rw [hqp]; exact hinv'.tcov _ _ hi', ?_, ?_⟩
+    · rw [hv]; unfold entryVal; split <;> simp
+    · intro m
+      rw [hv]
+      unfold entryVal
+      by_cases hlt : (trunc p).length < p.length
+      · simp [hlt, polAt, PolRel]
+      · simp only [hlt, if_false, polAt]
+        rw [hinv.bind _ _ hi m, hinv'.bind _ _ hi' m]
+        exact polOf_perm hp m p
   constructor
   · intro q ov hq
-    obtain ⟨e, he, hqe, hiff⟩ := hinv.dom q ov hq
-    obtain ⟨ov', hov', hiff'⟩ := h2'.covT e (hsub e he)
-    rw [← hqe] at hov'
-    exact ⟨ov', hov', valRel_of hinv h2 hinv' h2' hsub hsub' hq hov' (hiff.trans hiff'.symm)⟩
+    obtain ⟨ov', h1, h2, h3⟩ := half hinv hinv' hp q ov hq
+    exact ⟨ov', h1, h2, h3⟩
   · intro q ov' hq'
-    obtain ⟨e, he, hqe, hiff'⟩ := hinv'.dom q ov' hq'
-    obtain ⟨ov, hov, hiff⟩ := h2.covT e (hsub' e he)
-    rw [← hqe] at hov
-    exact ⟨ov, hov, valRel_of hinv h2 hinv' h2' hsub hsub' hov hq' (hiff.trans hiff'.symm)⟩
+    obtain ⟨ov, h1, h2, h3⟩ := half hinv' hinv hp.symm q ov' hq'
+    refine ⟨ov, h1, h2.symm, ?_⟩
+    intro m
+    have := h3 m
+    cases ha : polAt pt'.store ov' m <;> cases hb : polAt pt.store ov m <;> simp_all [PolRel]
+    exact this.symm
 
-/-- Two builds of the same declarations (any orders) select the same policy, normalised URL and parameters. -/
-theorem select_perm {pt pt' : PTree} {es es' : List Endpoint}
-    (hinv : Inv pt es) (h2 : Inv2 pt es) (hinv' : Inv pt' es') (h2' : Inv2 pt' es')
-    (hsub : ∀ x ∈ es, x ∈ es') (hsub' : ∀ x ∈ es', x ∈ es)
-    (hfl : ∀ e1 ∈ es, ∀ e2 ∈ es, flagsOK e1.parts e2.parts = true) (m : String) (us : List Part) :
-    select pt m us = select pt' m us := by
-  have hsim := tree_sim hinv h2 hinv' h2' hsub hsub'
-  have hR0 : ValRel pt pt' none none := ⟨Iff.rfl, fun _ => rfl⟩
+/-- Two builds of the same declarations (any orders): same lookup outcome, normalised URL and parameters;
+    the selected policies consist of the same declarations. -/
+theorem select_perm {pt pt' : PTree} {es es' : List Endpoint} (hinv : Inv pt es) (hinv' : Inv pt' es')
+    (hp : es.Perm es') (hfl : cfgBoundaryMix es = false) (hsq : starQuirk es = false)
+    (m : String) (us : List Part) :
+    (select pt m us).hasValue = (select pt' m us).hasValue ∧
+    PolRel (select pt m us).policy (select pt' m us).policy ∧
+    (select pt m us).norm = (select pt' m us).norm ∧
+    (select pt m us).params = (select pt' m us).params := by
+  have hwl := starQuirk_false hsq
+  have hwl' : ∀ e ∈ es', wildLast e.parts = true := fun e he => hwl e (hp.mem_iff.mpr he)
+  have hR0 : ValRel pt pt' none none := ⟨Iff.rfl, fun _ => by simp [polAt, PolRel]⟩
   obtain ⟨_, hval, hpar, hnorm⟩ := lookGo_sim (R := ValRel pt pt') hR0 (fun ov ov' h => h.1) us
-    pt.tree pt'.tree none none [] [] hsim (tree_partsOK hinv hfl) hinv.wl (rcoh_of_coh h2) (rcoh_of_coh h2')
-    (.inl ⟨rfl, rfl⟩)
+    pt.tree pt'.tree none none [] [] (tree_sim hinv hinv' hp) (tree_partsOK hinv (cfgBoundaryMix_false hfl))
+    hinv.wl (tree_rcoh hinv hwl) (tree_rcoh hinv' hwl') (.inl ⟨rfl, rfl⟩)
   have hl : lookGo pt.tree none [] [] us = lookupParts pt.tree us := rfl
   have hl' : lookGo pt'.tree none [] [] us = lookupParts pt'.tree us := rfl
   rw [hl, hl'] at hval hpar hnorm
@@ -892,16 +649,47 @@ theorem select_perm {pt pt' : PTree} {es es' : List Endpoint}
   | none =>
     have hv' : (lookupParts pt'.tree us).value = none := by
       rw [hv] at hval; exact hval.1.mp rfl
-    rw [select_none hv, select_none hv', hpar, hnorm]
+    rw [select_none hv, select_none hv']
+    exact ⟨rfl, by simp [PolRel], hnorm, hpar⟩
   | some i =>
     cases hv' : (lookupParts pt'.tree us).value with
     | none => rw [hv, hv'] at hval; have := hval.1.mpr rfl; simp at this
     | some i' =>
-      rw [select_some hv, select_some hv', hpar, hnorm]
+      rw [select_some hv, select_some hv']
       rw [hv, hv'] at hval
+      refine ⟨rfl, ?_, hnorm, hpar⟩
       have := hval.2 m
-      simp only [polAt] at this
-      rw [this]
+      simpa [polAt] using this
+
+
+theorem sameAnswer_of_select {pt pt' : PTree} (g : Globals) (m : String) (us : List Part)
+    (h : (select pt m us).hasValue = (select pt' m us).hasValue ∧
+      PolRel (select pt m us).policy (select pt' m us).policy ∧
+      (select pt m us).norm = (select pt' m us).norm ∧
+      (select pt m us).params = (select pt' m us).params) :
+    sameAnswer (observe pt g m us) (observe pt' g m us) = true := by
+  obtain ⟨h1, h2, h3, h4⟩ := h
+  unfold sameAnswer observe
+  simp only [getRemedies, getDiagnoses, shouldDiagnose, h1, h3, h4, beq_self_eq_true, Bool.true_and,
+    Bool.and_true, Bool.and_eq_true, beq_iff_eq]
+  cases hp : (select pt m us).policy with
+  | none =>
+    cases hp' : (select pt' m us).policy with
+    | none => simp [List.isPerm_iff]
+    | some p' => rw [hp, hp'] at h2; simp [PolRel] at h2
+  | some p =>
+    cases hp' : (select pt' m us).policy with
+    | none => rw [hp, hp'] at h2; simp [PolRel] at h2
+    | some p' =>
+      rw [hp, hp'] at h2
+      simp only [PolRel] at h2
+      have hr : p.remedies.Perm p'.remedies := h2.flatMap_right _
+      have hd : p.diags.Perm p'.diags := h2.flatMap_right _
+      simp only [Option.isSome_some, true_and, Option.map_some]
+      refine ⟨⟨?_, ?_⟩, ?_⟩
+      · exact List.isPerm_iff.mpr ((hr.filter _).map _)
+      · exact List.isPerm_iff.mpr ((hd.filter _).map _)
+      · rw [hd.any_eq]
 
 
 end LunarVerif.C13
